@@ -1024,6 +1024,8 @@ def mk_server_cfg(args: ArgsType) -> configparser.SectionProxy:
             return False
         # Don't include configs that are the same as defaults
         elif value == lib_cfg.get(opt, DEFAULTS[opt]):
+            # Drop a stale override so that the default is in effect again next time
+            USERCFG.remove_option(server, opt)
             return False
 
         return True
